@@ -77,6 +77,7 @@ class Profile:
         self.float_props = True
         self.nasty_docs = False
         self.sdk_safe = False  # avoid shapes on which the Python generator crashes
+        self.incomplete_supersets = False  # a superset may omit literals of its subset (front end must reject)
         self.mistype = False  # add exactly one invariant with one typing obligation flipped
         for key, value in kw.items():
             if not hasattr(self, key):
@@ -398,8 +399,13 @@ class Generator:
             if candidates and rng.random() < 0.5:
                 sub = rng.choice(candidates)
                 # the front end demands that all literals of the subset are listed
+                omit = self.p.incomplete_supersets and rng.random() < 0.5
                 for v, pv in zip(sub.src_values, sub.values):
                     if pv not in pyvalues:
+                        if omit:
+                            self.m.feature("constant-set-superset-omits-subset-literal")
+                            omit = False
+                            continue
                         values.append(v)
                         pyvalues.append(pv)
                 superset_src = f", superset_of=[{sub.name}]"
@@ -431,7 +437,8 @@ class Generator:
                 vsrc = repr(value)
             const = GConst(name, f"{name}: {prim} = constant_{prim}(value={vsrc})", "prim", prim)
             const.values = [value]
-            self.m.consts.append(const)
+            # primitive constants have no dependencies: put them anywhere among the sets
+            self.m.consts.insert(rng.randint(0, len(self.m.consts)), const)
 
     # -- constrained primitives ------------------------------------------------
     def gen_cprims(self) -> None:
@@ -899,7 +906,7 @@ class Generator:
             if sets and r < 0.3 and not simple:
                 m.feature("in-set-int")
                 return f"{e} in {rng.choice(sets).name}"
-            if r < 0.37 and t.kind == "prim":
+            if r < 0.33 and t.kind == "prim":
                 m.feature("arith")
                 return f"{e} {rng.choice(['+', '-'])} {rng.randint(1, 3)} {op} {k}"
             if r < 0.45 and t.kind == "prim":
